@@ -196,10 +196,12 @@ impl Mac {
         }?;
         let (mut tx_config, tx_channel) =
             self.region.create_tx_config(rng, self.configuration.data_rate, &Frame::Data);
-        tx_config.adjust_power(
-            self.configuration.tx_power.unwrap_or(self.board_eirp.max_power),
-            self.board_eirp.antenna_gain,
-        );
+        tx_config.adjust_power(self.board_eirp.max_power, self.board_eirp.antenna_gain);
+        // The level commanded by the network is a further upper bound; it never lifts the
+        // limit of the radio.
+        if let Some(tx_power) = self.configuration.tx_power {
+            tx_config.pw = core::cmp::min(tx_config.pw, tx_power as i8);
+        }
         Ok((tx_config, self.rx_windows(&tx_channel), fcnt))
     }
 
